@@ -73,8 +73,14 @@ def run(prop, tier):
                 C.run_driver(exe, "limits", 1, out, args=["--pairs", "1", "--timeout", "600"], first=pidx, workers=1)
         else:
             C.run_driver(exe, "limits", total - singles, out, args=["--pairs", "1", "--timeout", "900"], first=singles, chunk=1)
+        # the same singles once more with every custom group locked (the lock flag must not change what a limit means)
+        outl = os.path.join(wd, "limits_locked")
+        C.run_driver(exe, "limits", singles, outl, args=["--pairs", "1", "--timeout", "600", "--lockgroups", "1"], chunk=1)
+        RL = C.parse_out(outl)
         R = C.parse_out(out)
-        viols = list(R.viol)
+        viols = list(R.viol) + list(RL.viol)
+        for case, line in RL.lines.get("RES", []):
+            R.lines["RES"].append((case, line))
         R.workload = dict(profile="limits", args=["--pairs", "1"])
         outcomes = collections.Counter()
         cases = []
@@ -97,12 +103,12 @@ def run(prop, tier):
             if " ok " not in l:
                 viols.append(dict(prop="C17", key="at_limit/file/" + what[c].split("=")[0] + "/refused", detail=what[c] + ": " + l, case=c, files=[paths[c]]))
         cov = dict(evaluations=len(cases) + len(paths), distinct_nontrivial=len(set(d for d, _ in cases)) + len(paths),
-                   rule="one case = content at L-1, L, L+1 or far beyond one capacity limit (description 255, names 127, extents 255 for int/float/string count/string width, 255 points, 255 channels, 32767 frames, int16 extremes, 255 parameter blocks, 65535-byte record), alone and in pairs (both at L; one at L + one beyond); built through the API, saved, reloaded; at/below L: save must succeed and the reload must equal; beyond: save must throw or the reload must equal; plus reference-encoded files for limits only reachable through files (group descriptions, last frame 65535, 127-char names, 7 dimensions); distinct = distinct case descriptors",
+                   rule="one case = content at L-1, L, L+1 or far beyond one capacity limit (description 255, names 127, extents 255 for int/float/string count/string width, 255 points, 255 channels, 32767 frames, int16 extremes, 255 parameter blocks, 65535-byte record), alone (also with every custom group locked) and in pairs (both at L; one at L + one beyond); built through the API, saved, reloaded; at/below L: save must succeed and the reload must equal; beyond: save must throw or the reload must equal; plus reference-encoded files for limits only reachable through files (group descriptions, last frame 65535, 127-char names, 7 dimensions); distinct = distinct case descriptors",
                    samples=[dict(case=d, result=r) for d, r in cases[:3] + cases[-2:]], outcomes=dict(outcomes), singles=singles, pairs_run=len(cases) - singles, pairs_total=total - singles,
                    file_limit_cases=dict(zip(what, ["ok"] * len(what))), file_limit_cases_completed=fl_ok, child_end_status=dict(R.status), exhaustive=not q,
                    exhaustive_scope="the enumerated boundary table (singles always complete; pairs complete in thorough)")
         inconc = None
-        if len(cases) < singles:
+        if len(cases) < 2 * singles:
             inconc = "only %d of %d single cases produced a result" % (len(cases), singles)
         if R.watchdog:
             inconc = "watchdog fired on limit cases %s" % R.watchdog[:5]
